@@ -46,6 +46,12 @@ type Dec struct {
 	Rets   []*ssa.Return
 	Subs   []*Dec // closures analysed at their call sites
 	Probs  []Issue
+	// Escapes: where the input buffer (or a view of it) flows into code this
+	// extraction did not analyse — an in-module call that was neither read as a
+	// codec unit nor analysed at its call site, a closure used as a value, a
+	// struct field or other memory. Non-empty means the atoms above may be only
+	// PART of what the decoder reads: no mismatch may be reported from them.
+	Escapes []string
 }
 
 func (x *X) isInput(root ssa.Value) bool {
@@ -94,6 +100,9 @@ func (x *X) Decode() *Dec {
 	if p := x.offsetParam(); p != nil {
 		d.In = SymT(p)
 	}
+	if x.Parent == nil {
+		x.findViewFields()
+	}
 	var raws []rawAtom
 	add := func(a Atom) {
 		raws = append(raws, rawAtom{a, x.LoopOf(a.At.Block())})
@@ -118,6 +127,7 @@ func (x *X) Decode() *Dec {
 				o := off.Add(x.Sym(ia.Index))
 				e := o.AddK(1)
 				a := Atom{Kind: "fixed", Width: 1, Val: t, At: t, Pos: t.Pos(), Off: &o, End: &e}
+				a.From = x.windowGuarded(ia.X, a.End)
 				x.setDest(&a, t)
 				add(a)
 			case *ssa.Lookup:
@@ -151,7 +161,7 @@ func (x *X) Decode() *Dec {
 				if !okr || !x.isInput(root) || !isByteSeq(t.Type()) {
 					continue
 				}
-				if onlyViewed(t) {
+				if onlyViewed(t) || x.onlyCursorUpdate(t) {
 					continue
 				}
 				lo := off
@@ -165,6 +175,16 @@ func (x *X) Decode() *Dec {
 					if k, isK := hi.Sub(lo).Const(); isK {
 						a.Width = int(k)
 					}
+				} else if n, cp, ok := x.copyExtent(t); ok {
+					// copy(dst, data[lo:]): reads as many bytes as dst holds, where the
+					// copy is (the length check that must precede it is the guard
+					// rule's business)
+					hi := lo.Add(n)
+					a.End = &hi
+					a.At = cp
+				}
+				if a.End != nil {
+					a.From = x.windowGuarded(t.X, a.End)
 				}
 				x.setDest(&a, t)
 				add(a)
@@ -174,6 +194,26 @@ func (x *X) Decode() *Dec {
 				}
 			case *ssa.Store:
 				cell := t.Addr
+				if vs := x.view(); vs != nil {
+					if cell == vs.base {
+						if val := x.wholeStoreView(vs, t); val != nil {
+							if root, off, okr := x.bufRoot(val); okr && x.isInput(root) {
+								d.Stores = append(d.Stores, CellStore{St: t, Val: off, X: x})
+								continue
+							}
+						}
+						x.viewBad = "the cursor object of " + FuncLabel(x.Fn) + " is assigned as a whole from something other than a composite literal over the input"
+						continue
+					}
+					if base, vf, ok := x.viewFieldOf(cell); ok && base == vs.base && vf == vs.fld {
+						if root, off, okr := x.bufRoot(t.Val); okr && x.isInput(root) {
+							d.Stores = append(d.Stores, CellStore{St: t, Val: off, X: x})
+						} else {
+							x.viewBad = "the cursor field of " + FuncLabel(x.Fn) + " is set to something that is not a view of the input"
+						}
+						continue
+					}
+				}
 				switch cell.(type) {
 				case *ssa.Alloc, *ssa.FreeVar:
 				default:
@@ -189,7 +229,9 @@ func (x *X) Decode() *Dec {
 			}
 		}
 	}
+	raws = x.mergeByteReads(raws)
 	d.Atoms = x.fold(raws, nil)
+	d.Escapes = x.inputEscapes()
 	for _, ret := range x.SuccessReturns() {
 		d.Rets = append(d.Rets, ret)
 		if len(ret.Results) == 3 {
@@ -199,6 +241,266 @@ func (x *X) Decode() *Dec {
 		}
 	}
 	return d
+}
+
+// copyExtent: the open-ended view s = data[lo:] is consumed by exactly one
+// copy(dst, s) (and otherwise only measured): the bytes read are the first
+// len(dst) of it.
+func (x *X) copyExtent(s *ssa.Slice) (Sym, *ssa.Call, bool) {
+	refs := s.Referrers()
+	if refs == nil {
+		return Sym{}, nil, false
+	}
+	var dst ssa.Value
+	var cp *ssa.Call
+	for _, r := range *refs {
+		switch y := r.(type) {
+		case *ssa.DebugRef:
+		case *ssa.Call:
+			b, ok := y.Call.Value.(*ssa.Builtin)
+			if !ok {
+				return Sym{}, nil, false
+			}
+			switch b.Name() {
+			case "len":
+			case "copy":
+				if len(y.Call.Args) != 2 || y.Call.Args[1] != ssa.Value(s) || dst != nil {
+					return Sym{}, nil, false
+				}
+				dst, cp = y.Call.Args[0], y
+			default:
+				return Sym{}, nil, false
+			}
+		default:
+			return Sym{}, nil, false
+		}
+	}
+	if dst == nil {
+		return Sym{}, nil, false
+	}
+	n, ok := x.seqLen(dst, nil, 0)
+	return n, cp, ok
+}
+
+func (x *X) markHandled(in ssa.Instruction) {
+	if x.handled == nil {
+		x.handled = map[ssa.Instruction]bool{}
+	}
+	x.handled[in] = true
+}
+
+// onStack: f is the function being read or one of those it was reached from.
+func (x *X) onStack(f *ssa.Function) bool {
+	for y := x; y != nil; y = y.Parent {
+		if y.Fn == f {
+			return true
+		}
+	}
+	return false
+}
+
+// AllEscapes lists the escapes of this decoder and of every helper / closure
+// analysed on its behalf.
+func (d *Dec) AllEscapes() []string {
+	out := append([]string(nil), d.Escapes...)
+	seen := map[string]bool{}
+	for _, e := range out {
+		seen[e] = true
+	}
+	for _, s := range d.Subs {
+		for _, e := range s.AllEscapes() {
+			if !seen[e] {
+				seen[e] = true
+				out = append(out, e)
+			}
+		}
+	}
+	return out
+}
+
+// inputEscapes follows the input buffer of this function — its byte-sequence
+// parameters that are (bound to) the decoder's input, and captured variables
+// holding it — through views, φs and local variables, and reports every place
+// where it leaves the code the extractor read.
+func (x *X) inputEscapes() []string {
+	var out []string
+	note := func(f string, a ...any) {
+		s := fmt.Sprintf(f, a...)
+		for _, o := range out {
+			if o == s {
+				return
+			}
+		}
+		out = append(out, s)
+	}
+	fname := FuncLabel(x.Fn)
+	seen := map[ssa.Value]bool{}
+	var visit func(v ssa.Value)
+	// cell: a variable (Alloc, or FreeVar of a closure) that holds the buffer
+	var visitCell func(c ssa.Value)
+	visitCell = func(c ssa.Value) {
+		if seen[c] || c.Referrers() == nil {
+			return
+		}
+		seen[c] = true
+		for _, r := range *c.Referrers() {
+			switch y := r.(type) {
+			case *ssa.UnOp:
+				if y.Op == token.MUL {
+					visit(y)
+				}
+			case *ssa.Store, *ssa.DebugRef:
+			case *ssa.MakeClosure:
+				fn, _ := y.Fn.(*ssa.Function)
+				// the closure may only be called, and every call must have been read
+				if y.Referrers() != nil {
+					for _, rr := range *y.Referrers() {
+						switch z := rr.(type) {
+						case *ssa.DebugRef:
+						case *ssa.Call:
+							if z.Call.Value != ssa.Value(y) {
+								note("%s: a closure that captures the input buffer is passed to %s", fname, x.exprString(z, 0))
+							} else if !x.handled[z] {
+								note("%s: a closure that captures the input buffer is called but was not analysed", fname)
+							}
+						default:
+							note("%s: a closure that captures the input buffer is used as a value (%T)", fname, rr)
+						}
+					}
+				}
+				_ = fn
+			default:
+				note("%s: the address of a variable holding the input buffer is used by %T", fname, r)
+			}
+		}
+	}
+	visit = func(v ssa.Value) {
+		if seen[v] || v.Referrers() == nil {
+			return
+		}
+		seen[v] = true
+		for _, r := range *v.Referrers() {
+			switch y := r.(type) {
+			case *ssa.Slice:
+				if y.X == v {
+					visit(y)
+				}
+			case *ssa.ChangeType:
+				visit(y)
+			case *ssa.Phi:
+				visit(y)
+			case *ssa.Store:
+				if y.Val != v {
+					continue
+				}
+				switch a := y.Addr.(type) {
+				case *ssa.Alloc:
+					if isByteSeq(deref(a.Type())) {
+						visitCell(a)
+						continue
+					}
+					note("%s: the input buffer is stored into %s", fname, x.exprString(a, 0))
+				case *ssa.FreeVar:
+					visitCell(a)
+				case *ssa.FieldAddr:
+					if _, _, isView := x.viewFieldOf(a); isView {
+						if vs := x.view(); vs != nil {
+							x.viewObjectEscapes(vs, note)
+							continue
+						}
+					}
+					st, _ := deref(a.X.Type()).Underlying().(*types.Struct)
+					fn := "?"
+					if st != nil {
+						fn = st.Field(a.Field).Name()
+					}
+					note("%s: (a view of) the input buffer is stored into field %s of a %s", fname, fn, types.TypeString(deref(a.X.Type()), func(p *types.Package) string { return "" }))
+				default:
+					note("%s: the input buffer is stored into memory (%T)", fname, y.Addr)
+				}
+			case ssa.CallInstruction:
+				cc := y.Common()
+				if _, isB := cc.Value.(*ssa.Builtin); isB {
+					continue
+				}
+				if _, isCall := y.(*ssa.Call); !isCall {
+					note("%s: the input buffer is handed to a go/defer statement", fname)
+					continue
+				}
+				if kind, _, _ := binCall(y.(*ssa.Call)); kind != "" {
+					continue
+				}
+				if x.handled[y] {
+					continue
+				}
+				f := cc.StaticCallee()
+				switch {
+				case f == nil && cc.IsInvoke():
+					// a method of an interface value: outside the module's codecs
+				case f == nil:
+					note("%s: the input buffer is passed to a function value", fname)
+				case f.Blocks != nil && x.W.P.InModule(f):
+					note("%s: the input buffer is passed to %s, which was not analysed", fname, FuncLabel(f))
+				}
+			}
+		}
+	}
+	if x.viewBad != "" {
+		note("%s", x.viewBad)
+	}
+	if vs := x.view(); vs != nil {
+		x.viewObjectEscapes(vs, note)
+	}
+	if x.Parent == nil || true {
+		for _, p := range x.Fn.Params {
+			if isByteSeq(p.Type()) {
+				if _, isStr := p.Type().Underlying().(*types.Basic); isStr {
+					continue
+				}
+				visit(p)
+			}
+		}
+	}
+	for _, fv := range x.Fn.FreeVars {
+		if al, ok := CellRoot(fv).(*ssa.Alloc); ok && isByteSeq(deref(al.Type())) {
+			if s := singleStore(al); s != nil && x.isInput(s.Val) {
+				visitCell(fv)
+			}
+		}
+	}
+	return out
+}
+
+// viewObjectEscapes: the cursor object may only have its fields addressed and
+// be handed to calls that were analysed at their call site.
+func (x *X) viewObjectEscapes(vs *viewState, note func(string, ...any)) {
+	fname := FuncLabel(x.Fn)
+	if vs.base.Referrers() == nil {
+		return
+	}
+	for _, r := range *vs.base.Referrers() {
+		switch y := r.(type) {
+		case *ssa.FieldAddr, *ssa.DebugRef:
+		case *ssa.Store:
+			if y.Val == vs.base {
+				note("%s: the cursor object is stored into memory", fname)
+			}
+			// a whole-struct store initialising the object: its view field is set
+			// by the composite literal, which findViewFields saw field by field
+		case *ssa.UnOp:
+			note("%s: the cursor object is copied as a whole", fname)
+		case ssa.CallInstruction:
+			if !x.handled[y] {
+				callee := "a call"
+				if f := y.Common().StaticCallee(); f != nil {
+					callee = FuncLabel(f)
+				}
+				note("%s: the cursor object is handed to %s, which was not analysed", fname, callee)
+			}
+		default:
+			note("%s: the cursor object is used by %T", fname, r)
+		}
+	}
 }
 
 // isCaptured: the cell is a FreeVar, or an Alloc bound into a closure.
@@ -254,6 +556,7 @@ func (x *X) decCall(d *Dec, t *ssa.Call, add func(Atom)) {
 		o := off
 		e := o.AddK(int64(w))
 		a := Atom{Kind: "fixed", Width: w, Order: order, Val: t, At: t, Pos: t.Pos(), Off: &o, End: &e}
+		a.From = x.windowGuarded(cc.Args[1], a.End)
 		x.setDest(&a, t)
 		add(a)
 		return
@@ -288,6 +591,7 @@ func (x *X) decCall(d *Dec, t *ssa.Call, add func(Atom)) {
 			}
 		}
 		sub := child.Decode()
+		x.markHandled(t)
 		// where does result 0 go?
 		ret0 := ""
 		if t.Referrers() != nil {
@@ -318,10 +622,16 @@ func (x *X) decCall(d *Dec, t *ssa.Call, add func(Atom)) {
 	if f == nil || !x.W.P.InModule(f) {
 		return
 	}
+	if x.inlineView(d, t, f, add) {
+		x.markHandled(t)
+		return
+	}
 	if x.inlineReader(t, f, add) {
+		x.markHandled(t)
 		return
 	}
 	if x.inlineCursor(d, t, f, add) {
+		x.markHandled(t)
 		return
 	}
 	// func(data, offset) (T, newOffset, error) called on the whole buffer
@@ -347,6 +657,11 @@ func (x *X) decCall(d *Dec, t *ssa.Call, add func(Atom)) {
 		return
 	}
 	o := x.Sym(offArg)
+	if x.isUnit(f) || x.onStack(f) || x.root().Units == nil {
+		// a codec unit compared as a whole (or the decoder calling itself): the
+		// call is accounted for by the nested atom
+		x.markHandled(t)
+	}
 	a := Atom{Kind: "nested", Callee: f, Val: t, At: t, Pos: t.Pos(), Off: &o}
 	if t.Referrers() != nil {
 		for _, r := range *t.Referrers() {
@@ -484,6 +799,20 @@ func (x *X) dest(v ssa.Value) destInfo {
 					work = append(work, item{y, it.via})
 					continue
 				}
+				// an argument of a cursor method (r.take(n)): a local use — what the
+				// method reads is described where it is analysed
+				if vs := x.view(); vs != nil {
+					isCursorCall := false
+					for _, a := range cc.Args {
+						if a == vs.base {
+							isCursorCall = true
+						}
+					}
+					if isCursorCall {
+						out.local = true
+						continue
+					}
+				}
 				via := it.via
 				if f := cc.StaticCallee(); f != nil {
 					if via == "" {
@@ -595,30 +924,30 @@ func (x *X) guardOf(iff *ssa.If) (Guard, bool) {
 		return Guard{}, false
 	}
 	failOnTrue := e0
-	isLen := func(v ssa.Value) bool {
-		s := x.Sym(v)
-		t, single := s.Single()
-		if !single {
-			return false
+	// X op Y with D = X - Y; D must mention the length L of the input buffer
+	// exactly once: D = E - L (then X op Y ⟺ E op L) or D = L - E (⟺ L op E).
+	// This covers `off+4 > len(data)`, `len(data) < off+4`, `len(data)-off < 4`
+	// and `len(data[off:]) < 4` alike.
+	dsym := x.Sym(cmp.X).Sub(x.Sym(cmp.Y))
+	var lterm ssa.Value
+	for t := range dsym.T {
+		if x.isInputLen(t) {
+			if lterm != nil {
+				return Guard{}, false
+			}
+			lterm = t
 		}
-		call, isCall := t.(*ssa.Call)
-		if !isCall {
-			return false
-		}
-		bi, isB := call.Call.Value.(*ssa.Builtin)
-		if !isB || bi.Name() != "len" {
-			return false
-		}
-		root, _, okr := x.bufRoot(call.Call.Args[0])
-		return okr && x.isInput(root)
+	}
+	if lterm == nil {
+		return Guard{}, false
 	}
 	var a Sym
 	op := cmp.Op
-	switch {
-	case isLen(cmp.Y) && !isLen(cmp.X):
-		a = x.Sym(cmp.X)
-	case isLen(cmp.X) && !isLen(cmp.Y):
-		a = x.Sym(cmp.Y)
+	switch dsym.Coef(lterm) {
+	case -1:
+		a = dsym.Add(SymT(lterm))
+	case 1:
+		a = SymT(lterm).Sub(dsym)
 		// len op A  ≡  A op' len
 		switch op {
 		case token.LSS:
@@ -766,6 +1095,41 @@ func (x *X) repeatDec(l *Loop, body []Atom) Atom {
 			}
 		}
 		return a
+	}
+	// view cursor: the body starts at the current cursor of a view cell
+	if vs := x.view(); vs != nil {
+		for _, b := range Flatten(body) {
+			if b.Off == nil {
+				continue
+			}
+			if b.Off.Coef(vs.cur) != 1 {
+				break
+			}
+			a.Cursor = "cell"
+			inS := SymT(vs.cur)
+			a.In = &inS
+			if entryPred != nil {
+				off := x.viewAt(entryPred.Instrs[len(entryPred.Instrs)-1])
+				a.Off = &off
+			}
+			end := SymT(vs.cur)
+			a.End = &end
+			var outS *Sym
+			agree := len(backPreds) > 0
+			for _, i := range backPreds {
+				p := hb.Preds[i]
+				s := x.viewAt(p.Instrs[len(p.Instrs)-1])
+				if outS == nil {
+					outS = &s
+				} else if !outS.Equal(s) {
+					agree = false
+				}
+			}
+			if agree {
+				a.Out = outS
+			}
+			return a
+		}
 	}
 	// cell cursor: the body's first offset is a load of a captured int cell
 	for _, b := range Flatten(body) {
@@ -1338,10 +1702,17 @@ func (x *X) inlineCursor(d *Dec, call *ssa.Call, f *ssa.Function, add func(Atom)
 		return false
 	}
 	res := f.Signature.Results()
-	if res.Len() != 3 || types.TypeString(res.At(2).Type(), nil) != "error" {
-		return false
-	}
-	if b, ok := res.At(1).Type().Underlying().(*types.Basic); !ok || b.Kind() != types.Int {
+	// (T, newOff, error): a cursor helper; (T, error): a "peek" helper that reads
+	// at offsets it is given and leaves the cursor to its caller
+	peek := false
+	switch {
+	case res.Len() == 3 && types.TypeString(res.At(2).Type(), nil) == "error":
+		if b, ok := res.At(1).Type().Underlying().(*types.Basic); !ok || b.Kind() != types.Int {
+			return false
+		}
+	case res.Len() == 2 && types.TypeString(res.At(1).Type(), nil) == "error":
+		peek = true
+	default:
 		return false
 	}
 	depth := 0
@@ -1399,18 +1770,29 @@ func (x *X) inlineCursor(d *Dec, call *ssa.Call, f *ssa.Function, add func(Atom)
 	}
 	child.findRoots()
 	sub := child.Decode()
-	if len(sub.Atoms) == 0 || len(sub.RetOff) == 0 || len(sub.RetOff) != len(sub.Rets) {
+	if len(sub.Atoms) == 0 {
 		return false
 	}
-	for _, r := range sub.RetOff[1:] {
-		if !r.Equal(sub.RetOff[0]) {
+	if !peek {
+		if len(sub.RetOff) == 0 || len(sub.RetOff) != len(sub.Rets) {
 			return false
+		}
+		for _, r := range sub.RetOff[1:] {
+			if !r.Equal(sub.RetOff[0]) {
+				return false
+			}
 		}
 	}
 	for _, a := range sub.Atoms {
 		switch a.Kind {
-		case "fixed", "bytes", "nested", "repeat":
+		case "fixed", "bytes", "repeat":
 			if a.Off == nil || a.End == nil {
+				return false
+			}
+		case "nested":
+			// a unit called at an offset read from the wire (a compression
+			// pointer) need not hand back where it stopped
+			if a.Off == nil || (a.End == nil && !peek) {
 				return false
 			}
 		default:
@@ -1444,7 +1826,9 @@ func (x *X) inlineCursor(d *Dec, call *ssa.Call, f *ssa.Function, add func(Atom)
 			case 0:
 				valDest = x.dest(ex)
 			case 1:
-				x.symOf[ex] = sigma(sub.RetOff[0])
+				if !peek {
+					x.symOf[ex] = sigma(sub.RetOff[0])
+				}
 			}
 		}
 	}
@@ -1454,8 +1838,12 @@ func (x *X) inlineCursor(d *Dec, call *ssa.Call, f *ssa.Function, add func(Atom)
 	}
 	for i, a := range atoms {
 		na := a
-		o, e := sigma(*a.Off), sigma(*a.End)
-		na.Off, na.End = &o, &e
+		o := sigma(*a.Off)
+		na.Off = &o
+		if a.End != nil {
+			e := sigma(*a.End)
+			na.End = &e
+		}
 		na.At = call
 		na.From = sub.X
 		if sub.Atoms[i].ret {
@@ -1501,4 +1889,131 @@ func copiesBytes(f *ssa.Function) bool {
 		return true
 	}
 	return false
+}
+
+// byteContribution: the single byte value b is widened, optionally shifted
+// left by a constant, and OR-ed (or added) with others: returns the root of
+// that OR tree and the shift b enters it with.
+func byteContribution(b ssa.Value) (root ssa.Value, shift int64, ok bool) {
+	only := func(v ssa.Value) ssa.Instruction {
+		var one ssa.Instruction
+		if v.Referrers() == nil {
+			return nil
+		}
+		for _, r := range *v.Referrers() {
+			if _, isDbg := r.(*ssa.DebugRef); isDbg {
+				continue
+			}
+			if one != nil {
+				return nil
+			}
+			one = r
+		}
+		return one
+	}
+	v := b
+	for d := 0; d < 4; d++ {
+		cv, isC := only(v).(*ssa.Convert)
+		if !isC || !valuePreserving(cv.X.Type(), cv.Type()) {
+			break
+		}
+		v = cv
+	}
+	if sh, isB := only(v).(*ssa.BinOp); isB && sh.Op == token.SHL && sh.X == v {
+		k, isK := constI(sh.Y)
+		if !isK || k < 0 || k%8 != 0 {
+			return nil, 0, false
+		}
+		shift = k
+		v = sh
+	}
+	joined := false
+	for d := 0; d < 8; d++ {
+		bo, isB := only(v).(*ssa.BinOp)
+		if !isB || (bo.Op != token.OR && bo.Op != token.ADD) {
+			break
+		}
+		v = bo
+		joined = true
+	}
+	if !joined {
+		return nil, 0, false
+	}
+	return v, shift, true
+}
+
+// orLeaves counts the leaves of the OR/ADD tree rooted at v.
+func orLeaves(v ssa.Value, d int) int {
+	if bo, ok := v.(*ssa.BinOp); ok && (bo.Op == token.OR || bo.Op == token.ADD) && d < 10 {
+		return orLeaves(bo.X, d+1) + orLeaves(bo.Y, d+1)
+	}
+	return 1
+}
+
+// mergeByteReads folds k single-byte reads at consecutive offsets that are
+// assembled by shifts and ORs into one integer — uint16(b[o])<<8 | uint16(b[o+1])
+// — into the one fixed-width read binary.{Big,Little}Endian.UintN would be.
+func (x *X) mergeByteReads(raws []rawAtom) []rawAtom {
+	var out []rawAtom
+	for i := 0; i < len(raws); i++ {
+		r := raws[i]
+		a := r.a
+		if a.Kind != "fixed" || a.Width != 1 || a.Val == nil || a.Off == nil || a.Field != "" {
+			out = append(out, r)
+			continue
+		}
+		root, s0, ok := byteContribution(a.Val)
+		if !ok {
+			out = append(out, r)
+			continue
+		}
+		k := orLeaves(root, 0)
+		if k < 2 || k > 8 || i+k > len(raws) {
+			out = append(out, r)
+			continue
+		}
+		order := ""
+		switch s0 {
+		case int64(8 * (k - 1)):
+			order = "BE"
+		case 0:
+			order = "LE"
+		}
+		good := order != ""
+		for j := 1; j < k && good; j++ {
+			b := raws[i+j]
+			if b.loop != r.loop || b.a.Kind != "fixed" || b.a.Width != 1 || b.a.Val == nil || b.a.Off == nil || b.a.From != a.From {
+				good = false
+				break
+			}
+			if !b.a.Off.Equal(a.Off.AddK(int64(j))) {
+				good = false
+				break
+			}
+			rj, sj, ok := byteContribution(b.a.Val)
+			want := int64(8 * (k - 1 - j))
+			if order == "LE" {
+				want = int64(8 * j)
+			}
+			if !ok || rj != root || sj != want {
+				good = false
+			}
+		}
+		at, isInstr := root.(ssa.Instruction)
+		if !good || !isInstr {
+			out = append(out, r)
+			continue
+		}
+		o := *a.Off
+		e := o.AddK(int64(k))
+		// the read happens where its last byte is loaded (that is what the length
+		// check must dominate)
+		lastAt := raws[i+k-1].a.At
+		na := Atom{Kind: "fixed", Width: k, Order: order, Val: root, At: lastAt, Pos: a.Pos, Off: &o, End: &e, From: a.From}
+		_ = at
+		x.setDest(&na, root)
+		out = append(out, rawAtom{na, r.loop})
+		i += k - 1
+	}
+	return out
 }
